@@ -54,6 +54,8 @@ SHAPES = OrderedDict(
         ("p0", ("Summary line", [], None)),
         ("ret_only", ("Summary line", [], ("int", P, ABSENT))),
         ("p1_kwargs", ("Summary line", [("a", "int", P, D), ("data_loader_kwargs", "Optional[dict]", "extra args", NoneStr)], None)),
+        ("p0_kwargs", ("Summary line", [("data_loader_kwargs", "Optional[dict]", P, NoneStr)], None)),
+        ("p1_noprose_kwargs", ("Summary line", [("a", "int", None, D), ("data_loader_kwargs", "Optional[dict]", P, NoneStr)], None)),
         ("p3_mixed", ("Summary line", [("a", "str", P, ABSENT), ("b", "int", "the b", D), ("c", "bool", "the c", True)], ("str", "the result", ABSENT))),
         ("sum2", ("Summary line\nsecond line", [("a", "int", P, ABSENT)], None)),
     ]
